@@ -43,7 +43,9 @@ def main():
                 sys.exit(2)
         rc, o = sh("git status --porcelain", cwd=wt)
         files = [ln[3:].strip() for ln in o.splitlines() if ln.strip()]
-        env = dict(os.environ, VERIF_DEV_OVERLAY=",".join("%s=%s" % (f, os.path.join(wt, f)) for f in files))
+        scratch = "/tmp/seedpre-results-%d" % os.getpid()
+        os.makedirs(scratch, exist_ok=True)
+        env = dict(os.environ, VERIF_SCRATCH_RESULTS=scratch, VERIF_DEV_OVERLAY=",".join("%s=%s" % (f, os.path.join(wt, f)) for f in files))
         for c in checks:
             t0 = time.time()
             rc, o = sh("./check %s --tier %s" % (c, tier), cwd="/verif", env=env)
@@ -55,7 +57,7 @@ def main():
             if rc not in (0, 1):
                 print(o[-1500:])
     finally:
-        sh("git -C /repo worktree remove --force %s" % wt)
+        sh("git -C /repo worktree remove --force %s; rm -rf /tmp/seedpre-results-%d" % (wt, os.getpid()))
 
 
 if __name__ == "__main__":
